@@ -3,17 +3,21 @@ use std::path::Path;
 
 pub mod c21;
 pub mod c29;
+pub mod c30;
 
 pub fn for_property(p: &str) -> Vec<Suite> {
     match p {
         "C21" => c21::suites(),
         "C29" => c29::suites(),
+        "C30" => c30::suites(),
         _ => vec![],
     }
 }
 
 /// Regenerate `Generated/*.lean` from the running implementation (only rewritten when changed).
-pub fn extract_all(_dir: &Path) {}
+pub fn extract_all(dir: &Path) {
+    c30::extract(dir);
+}
 
 #[allow(dead_code)]
 pub fn write_if_changed(path: &Path, content: &str) {
